@@ -54,6 +54,13 @@ def analyse(src: Source) -> List[Report]:
     # cell-based taggers generate their in-states from the occupancy: a unit filed in the wrong list is a missing factor
     from ..cell_rules import check_occupancy
     check_occupancy(prog, rep)
+    # "in flight" is what the scheduler still holds as live: an event trashed by the activator must be dead in the scheduler and
+    # stay dead (lazy-deletion counters, also across counter overflow and a dump / resume) -- the scheduler half of the protocol,
+    # shared with C06
+    from ..cfront import CUnit
+    from .c06 import HEAP_C, check_heap_scheduler, check_list_scheduler
+    check_heap_scheduler(src, rep, CUnit(src, HEAP_C))
+    check_list_scheduler(src, rep)
     rep.expect_min("R9.1-I1-self-trash", 120)
     rep.expect_min("R9.1-I4-nothing-missing", 500)
     rep.expect_min("R9.2-pool", 35)
